@@ -285,7 +285,82 @@ def corpus(valid_traces, per_group):
     return out
 
 
-def run(tier, judge, ID):
+ATHERIS_RUNS = 1500000  # per campaign; 8 campaigns
+FUZZ_DICT = [
+    "UID ", "FETCH ", "SEARCH ", "STORE ", "APPEND ", "LIST ", "STATUS ", "LOGIN ", "RENAME ", "COPY ", "MOVE ", "SELECT ", "ID ", "FLAGS", "+FLAGS.SILENT ",
+    "BODY[", "BODY.PEEK[", "HEADER.FIELDS (", "HEADER.FIELDS.NOT (", ".MIME]", "TEXT]", "<0.1>", "RETURN (", "STATUS (", "CHARSET ", "NOT ", "OR ", "KEYWORD ",
+    "BEFORE ", "1-Jan-2020", '"01-Jan-2020 10:00:00 +0000"', "{1}\r\nx", "{0+}\r\n", "NIL", "inbox", "1:*", "\\Seen", "(", ")", '""', "RECURSIVEMATCH",
+    "SUBSCRIBED", "MESSAGES", "LARGER ", "HEADER ", "ALL", "FULL", "RFC822.SIZE", "ENVELOPE",
+]
+
+
+def _dict_escape(tok):
+    out = []
+    for ch in tok:
+        if ch == "\\":
+            out.append("\\\\")
+        elif ch == '"':
+            out.append('\\"')
+        elif 32 <= ord(ch) < 127:
+            out.append(ch)
+        else:
+            out.append("\\x%02x" % ord(ch))
+    return '"' + "".join(out) + '"'
+
+
+def atheris_campaign(seed, judge, feed_finding):
+    """Thorough tier: 8 single-process libFuzzer campaigns (4 seeded with the enumerated corpus, 4 from an
+    empty corpus), each bounded by -runs, with per-campaign scratch corpus directories."""
+    import json
+    import os
+    import subprocess
+    import sys
+
+    from ..world import rmtree, scratch_root
+
+    root = scratch_root() / "c08-atheris"
+    rmtree(root)
+    os.makedirs(root, exist_ok=True)
+    try:
+        chk = subprocess.run([sys.executable, "-c", "import atheris"], capture_output=True)
+        if chk.returncode != 0:
+            return {"atheris": "unavailable"}
+        dict_path = str(root / "tokens.dict")
+        with open(dict_path, "w") as f:
+            for tok in FUZZ_DICT:
+                f.write(_dict_escape(tok) + "\n")
+        seeds = corpus(list(all_valid()), 40)
+        procs = []
+        for i in range(8):
+            cdir = root / f"corpus{i}"
+            os.makedirs(cdir, exist_ok=True)
+            if i < 4:
+                for n, text in enumerate(seeds):
+                    with open(cdir / f"s{n:04d}", "wb") as f:
+                        f.write(text.encode("latin-1"))
+            out = str(root / f"found{i}.json")
+            max_len = 6000 if i % 4 == 3 else 400
+            cmd = [sys.executable, "-m", "vf.gen.c08_atheris", out, str(cdir), str(ATHERIS_RUNS), str(seed * 100 + i), str(max_len), dict_path]
+            procs.append((out, subprocess.Popen(cmd, stdout=subprocess.DEVNULL, stderr=subprocess.DEVNULL)))
+        execs = 0
+        summary = []
+        for out, pr in procs:
+            pr.wait()
+            try:
+                rj = json.load(open(out))
+            except Exception:
+                summary.append({"error": f"no result file, exit {pr.returncode}"})
+                continue
+            execs += rj["stats"]["execs"]
+            summary.append(rj["stats"])
+            for fnd in rj["found"]:
+                feed_finding({"kind": "mutant", "text": fnd["text"], "ops": ["atheris"], "labels": []})
+        return {"atheris": {"campaigns": summary, "execs": execs}}
+    finally:
+        rmtree(root)
+
+
+def run(tier, judge, ID, seed=1):
     evaluations = 0
     nontrivial = []
     buckets = {}
@@ -337,6 +412,11 @@ def run(tier, judge, ID):
             feed({"kind": "mutant", "text": "a SEARCH " + opener * depth + "ALL" + closer * depth, "ops": ["nest"], "labels": []}, "E7:nest")
             feed({"kind": "mutant", "text": "a UID SEARCH " + opener * depth, "ops": ["nest"], "labels": []}, "E7:nest")
 
+    fuzz_cov = {}
+    if tier == "thorough":
+        fuzz_cov = atheris_campaign(seed, judge, lambda tr: feed(tr, "E8:atheris-findings"))
+        evaluations += fuzz_cov.get("atheris", {}).get("execs", 0) if isinstance(fuzz_cov.get("atheris"), dict) else 0
+
     violations = []
     for k in sorted(buckets):
         violations.append(buckets[k])
@@ -345,5 +425,5 @@ def run(tier, judge, ID):
         "nontrivial": nontrivial,
         "violations": violations,
         "samples": samples,
-        "coverage": {"exhaustive": True, "enumerated": dict(sorted(enumerated.items())), "enumeration_bucket_counts": {f"{c}|{s}": n for (c, s), n in sorted(counts.items())}},
+        "coverage": dict({"exhaustive": True, "enumerated": dict(sorted(enumerated.items())), "enumeration_bucket_counts": {f"{c}|{s}": n for (c, s), n in sorted(counts.items())}}, **fuzz_cov),
     }
